@@ -166,6 +166,7 @@ func (ps *ProcessSet) run(ctx context.Context) {
 				}
 			}
 		case <-ps.done:
+			verifAt("pset.run.done")
 			ps.tracer.Send(CeaseProcessSetTrace{Definitions: ps.definitions})
 			return
 		case <-ctx.Done():
@@ -177,6 +178,7 @@ func (ps *ProcessSet) run(ctx context.Context) {
 func (ps *ProcessSet) tracerProcess(ctx context.Context, process *Process, wg *sync.WaitGroup) {
 	defer wg.Done()
 
+	verifAt("pset.watch.subscribe")
 	traces := process.Tracer().Subscribe()
 	defer process.tracer.Unsubscribe(traces)
 
